@@ -13,7 +13,7 @@ from __future__ import annotations
 import ast
 
 from ..core import regex_call, AnalysisError, const_value, names_in, norm, walk_own, walk_stmts
-from ..paths import enum_paths
+from ..paths import enum_paths, canon_test
 from .. import relang
 from . import conv_common as cc
 from . import c01
@@ -178,6 +178,13 @@ def r03_2(ctx, run, info):
     ctx.require_count("R03.2", n_split, 1, run.where(loop), "split of the path column for unstable records")
 
 
+def _drops_only_empty(test, v):
+    """the test keeps every non-empty token: a conjunction of `v`, `v is not None`, `v != ""`, `len(v) != 0`, `len(v) > 0`"""
+    atoms = test.values if isinstance(test, ast.BoolOp) and isinstance(test.op, ast.And) else [test]
+    ok = {v, f"{v} is not None", f"{v} != ''", f"len({v}) != 0", f"len({v}) > 0", f"len({v}) >= 1", f"len({v})", f"bool({v})"}
+    return all(norm(a) in ok for a in atoms)
+
+
 def r03_3(ctx, run, info):
     repo = ctx.repo
     conv = None
@@ -235,6 +242,8 @@ def r03_3(ctx, run, info):
                 if isinstance(st, ast.If) and not any(x is site.loop for x in ast.walk(st)):
                     skips = any(isinstance(x, (ast.Continue, ast.Break)) for x in ast.walk(st))
                     keeps = len(st.body) == 1 and isinstance(st.body[0], ast.Expr) and isinstance(st.body[0].value, ast.Call) and isinstance(st.body[0].value.func, ast.Attribute) and st.body[0].value.func.attr == "append" and not st.orelse
+                    if keeps and _drops_only_empty(st.test, norm(lp.target)):
+                        continue  # `[t for t in re.split(...) if t is not None and t != ""]`: what filter(None, ...) does
                     if skips or keeps:
                         filt.append(st)
         consts = [set(c.value for c in ast.walk(st.test) if isinstance(c, ast.Constant)) for st in filt]
@@ -276,29 +285,105 @@ def r03_7(ctx):
     from ..core import inlined, tail_inlined
 
     gp = inlined(repo, tail_inlined(repo, gp, keep=lambda c: not c.name.startswith("_")))  # private helpers (a sorting helper) read in place
-    sorted_defs = [st for st in walk_own(gp.node) if isinstance(st, ast.Assign) and isinstance(st.value, ast.Call) and norm(st.value.func) == "sorted"]
-    ok_sort = False
-    svar = None
-    for st in sorted_defs:
-        key = [k.value for k in st.value.keywords if k.arg == "key"]
-        rev = [k for k in st.value.keywords if k.arg == "reverse"]
-        kbody = None
-        if key and isinstance(key[0], ast.Lambda):
-            kbody = norm(key[0].body)
-        elif key:
-            kf = repo.resolve_callable(gp, key[0])
-            if kf is not None:
-                kr = [r for r in walk_own(kf.node) if isinstance(r, ast.Return) and r.value is not None]
-                if len(kr) == 1:
-                    from ..core import resolve_expr
+    def key_text(key):
+        """text of the value a sort key computes from its argument; None = no key; "?" = not resolved"""
+        if key is None:
+            return None
+        if isinstance(key, ast.Lambda):
+            return norm(key.body)
+        if isinstance(key, ast.Call) and norm(key.func) in ("operator.itemgetter", "itemgetter") and len(key.args) == 1 and isinstance(const_value(key.args[0], None), int):
+            return f"item[{const_value(key.args[0])}]"
+        kf = repo.resolve_callable(gp, key)
+        if kf is not None:
+            kr = [r for r in walk_own(kf.node) if isinstance(r, ast.Return) and r.value is not None]
+            if len(kr) == 1:
+                from ..core import resolve_expr
 
-                    kbody = resolve_expr(kf.node, kr[0].value)
-        if kbody is not None and kbody.startswith("int(") and "tags['SO'][1]" in kbody and not rev:
-            ok_sort = True
-            svar = norm(st.targets[0])
+                return resolve_expr(kf.node, kr[0].value)
+        return "?"
+
+    def numeric_so(t):
+        return t is not None and t.startswith("int(") and "tags['SO'][1]" in t
+
+    sorted_vars, text_sorted, reversed_sorted, unknown_sort = set(), [], [], []
+    decorated = {}  # list of (int(SO), id) pairs -> True
+    for st in walk_stmts(gp.node.body):
+        if isinstance(st, ast.Assign) and len(st.targets) == 1 and isinstance(st.targets[0], ast.Name) and isinstance(st.value, ast.ListComp) and isinstance(st.value.elt, ast.Tuple) and len(st.value.elt.elts) == 2 and numeric_so(norm(st.value.elt.elts[0])) and norm(st.value.elt.elts[1]) == norm(st.value.generators[0].target) and not st.value.generators[0].ifs:
+            decorated[st.targets[0].id] = False  # pairs (numeric SO, id), not yet sorted
+    for st in walk_stmts(gp.node.body):
+        call = tgt = None
+        if isinstance(st, ast.Assign) and len(st.targets) == 1 and isinstance(st.targets[0], ast.Name) and isinstance(st.value, ast.Call) and norm(st.value.func) == "sorted" and st.value.args:
+            call, tgt, src = st.value, st.targets[0].id, norm(st.value.args[0])
+        elif isinstance(st, ast.Expr) and isinstance(st.value, ast.Call) and isinstance(st.value.func, ast.Attribute) and st.value.func.attr == "sort" and isinstance(st.value.func.value, ast.Name):
+            call, tgt, src = st.value, st.value.func.value.id, st.value.func.value.id
+        if call is None:
+            continue
+        key = [k.value for k in call.keywords if k.arg == "key"]
+        rev = [k for k in call.keywords if k.arg == "reverse" and const_value(k.value, "?") is not False]
+        kt = key_text(key[0] if key else None)
+        if src in decorated:
+            # a list of (int(SO), id) pairs: sorted by the pair or by its first item
+            if rev:
+                reversed_sorted.append(st)
+            elif kt in (None, "item[0]") or (kt or "").endswith("[0]"):
+                decorated[tgt] = True
+            else:
+                unknown_sort.append(st)
+            continue
+        if rev:
+            reversed_sorted.append(st)
+        elif numeric_so(kt):
+            sorted_vars.add(tgt)
+        elif kt is not None and kt != "?" and "tags['SO'][1]" in kt and "int(" not in kt and "float(" not in kt:
+            text_sorted.append(st)
+        else:
+            unknown_sort.append(st)
+    # undecorate: [x for _, x in pairs] / [p[1] for p in pairs]
+    for st in walk_stmts(gp.node.body):
+        if isinstance(st, ast.Assign) and len(st.targets) == 1 and isinstance(st.targets[0], ast.Name) and isinstance(st.value, ast.ListComp) and len(st.value.generators) == 1 and not st.value.generators[0].ifs:
+            g_ = st.value.generators[0]
+            if isinstance(g_.iter, ast.Name) and decorated.get(g_.iter.id) is True:
+                t_ = g_.target
+                second = (isinstance(t_, ast.Tuple) and len(t_.elts) == 2 and norm(st.value.elt) == norm(t_.elts[1])) or (isinstance(t_, ast.Name) and norm(st.value.elt) == f"{t_.id}[1]")
+                if second:
+                    sorted_vars.add(st.targets[0].id)
     rets = [r for r in walk_own(gp.node) if isinstance(r, ast.Return) and r.value is not None]
-    bad = [norm(r.value) for r in rets if not (norm(r.value) == svar or norm(r.value) in ("list()", "[]"))]
-    ctx.check(ok_sort and not bad, "R03.7", gp.where(), "GFA.get_path returns the contig's segments sorted numerically by their SO tag on every non-empty return (also for contigs that are not a linear path)", key_of(gp, f"get-path-sorted:{bad}"), returns=[norm(r.value) for r in rets])
+    srcs = {norm(st.value) for st in walk_stmts(gp.node.body) if isinstance(st, ast.Assign) and "contig_to_nodes" in norm(st.value)} | {norm(st.targets[0]) for st in walk_stmts(gp.node.body) if isinstance(st, ast.Assign) and "contig_to_nodes" in norm(st.value)}
+    bad, unknown = [], []
+    for r in rets:
+        t = norm(r.value)
+        if t in sorted_vars or t in ("list()", "[]"):
+            continue
+        if t in srcs or "contig_to_nodes" in t or (isinstance(r.value, ast.Call) and norm(r.value.func) == "list" and r.value.args and norm(r.value.args[0]) in srcs):
+            bad.append(t)  # the contig's segment list in file order
+        else:
+            unknown.append(t)
+    # with the strictness flag off, only a contig without segments gives an empty table
+    if len(gp.params) >= 3:
+        mode_p = gp.params[2]
+        try:
+            gpaths = enum_paths(gp.node.body, rule="R03.7", where=gp.where())
+        except AnalysisError:
+            gpaths = []
+        for p_ in gpaths:
+            if p_.term != "return" or p_.term_node is None or p_.term_node.value is None or norm(p_.term_node.value) not in ("list()", "[]"):
+                continue
+            tests = [canon_test(t_, pol_) for t_, pol_ in p_.tests()]
+            strict = any(t_ == mode_p and pol_ is True for t_, pol_ in tests) or any(mode_p in t_ and t_ != mode_p for t_, pol_ in tests)
+            empty_src = any((pol_ is True and (t_.endswith("== []") or t_.endswith("== 0"))) or (pol_ is False and (t_ in srcs or t_.startswith("len("))) for t_, pol_ in tests)
+            if not strict and not empty_src:
+                ctx.violated("R03.7", gp.where(p_.term_node), f"GFA.get_path returns an empty list for a contig that has segments even when `{mode_p}` is off ({[t_ + ('' if pol_ else ' is false') for t_, pol_ in tests][-2:]}): the per-contig tables of view / index are built with that flag off precisely to get the sorted segments of contigs that are not one linear path (haplotype contigs), and stable coordinates on them can then not be converted", key_of(gp, "get-path-empty-nonstrict"), path=p_.show())
+                break
+    for st in text_sorted:
+        ctx.violated("R03.7", gp.where(st), f"`{norm(st)[:80]}` orders the contig's segments by the text of their SO tag: '1000' sorts before '200', so the table handed to the binary search is not in numeric order", key_of(gp, "get-path-sorted:text-key"))
+    for st in reversed_sorted:
+        ctx.violated("R03.7", gp.where(st), f"`{norm(st)[:80]}` orders the contig's segments in descending order: the binary search expects ascending SO", key_of(gp, "get-path-sorted:reversed"))
+    if bad:
+        ctx.violated("R03.7", gp.where(), f"GFA.get_path returns `{bad[0]}`, the contig's segments in file order, on some non-empty return: the binary search expects them sorted by SO", key_of(gp, f"get-path-sorted:{bad}"), returns=[norm(r.value) for r in rets])
+    if not (text_sorted or reversed_sorted or bad):
+        if unknown or unknown_sort or not sorted_vars:
+            raise AnalysisError("R03.7", gp.where(), f"cannot establish that GFA.get_path returns the contig's segments sorted numerically by SO (returns not traced: {unknown}; sorts not read: {[norm(x)[:50] for x in unknown_sort]})")
+        ctx.holds("R03.7", gp.where(), "GFA.get_path returns the contig's segments sorted numerically by their SO tag on every non-empty return (also for contigs that are not a linear path)", returns=[norm(r.value) for r in rets])
     from .shared import groupby_tables
 
     if ctx.prop != "C03":
@@ -544,6 +629,8 @@ def r03_6(ctx, run, info):
         defs = [norm(st.value) for st in walk_own(run.node) if isinstance(st, ast.Assign) and norm(st.targets[0]) == h]
         if any(isinstance(st, ast.Assign) and norm(st.targets[0]) == h and isinstance(st.value, ast.Call) and isinstance(st.value.func, ast.Name) and st.value.func.id in {x.id for x in walk_own(run.node) if isinstance(x, ast.Name) and isinstance(x.ctx, ast.Store)} for st in walk_own(run.node)):
             raise AnalysisError("R03.6", run.where(), f"the handle is opened through a local callable ({defs}) this rule cannot resolve")
+        if any("BGZFile(" in d for d in defs) and any(d.startswith("open(") for d in defs):
+            raise AnalysisError("R03.6", run.where(), f"the handle is opened as {defs} under a test this rule does not read as the compression sniff of the same path")
         ctx.violated("R03.6", run.where(), f"the handle whose tell() is stored is opened as {defs}, not with the sniff -> (BGZFile | open) pair the seeking reader uses", key_of(run, f"opener:{defs}"), opened=defs)
         return
     n, a, b = shapes[0]
